@@ -1,19 +1,21 @@
 #!/bin/sh
-# usage: confirm_seeded.sh <worktree> ; prints CONFIRM lines. Expects MUTANT/patch.diff, the demo as
-# crates/*/tests/mutant_demo.rs (or an in-crate module wired in by MUTANT/demo_mod.diff) and
-# optionally MUTANT/DEMO_CMD.
-D="$1"; cd "$D" || exit 2
-B=$(basename "$D")
+# usage: confirm_seeded.sh <worktree> [mutant-dir-name, default MUTANT] ; prints CONFIRM lines. Expects $M/patch.diff, the demo as
+# crates/*/tests/mutant_demo.rs (or an in-crate module wired in by $M/demo_mod.diff) and
+# optionally $M/DEMO_CMD.
+D="$1"; M="${2:-MUTANT}"; cd "$D" || exit 2
+B=$(basename "$D")-$M
 DEMO_CMD="cargo test -p anemo --offline --test mutant_demo"
-[ -f MUTANT/DEMO_CMD ] && DEMO_CMD="$(cat MUTANT/DEMO_CMD)"
+[ -f $M/DEMO_CMD ] && DEMO_CMD="$(cat $M/DEMO_CMD)"
 git checkout -- crates >/dev/null 2>&1
-git apply MUTANT/patch.diff || { echo "CONFIRM $D patch-does-not-apply"; exit 1; }
+rm -f crates/*/tests/mutant_demo.rs
+[ -f "$M/mutant_demo.rs" ] && [ ! -f "$M/demo_mod.diff" ] && cp "$M/mutant_demo.rs" "$(if grep -q anemo-tower "$M/DEMO_CMD" 2>/dev/null; then echo crates/anemo-tower/tests; else echo crates/anemo/tests; fi)/mutant_demo.rs"
+git apply $M/patch.diff || { echo "CONFIRM $D $M patch-does-not-apply"; exit 1; }
 DEMO=$(ls crates/*/tests/mutant_demo.rs 2>/dev/null | head -1)
 [ -n "$DEMO" ] && mv "$DEMO" /tmp/$B.demo.rs
-if cargo test --workspace --offline >/tmp/$B.suite.log 2>&1; then echo "CONFIRM $D suite-with-change=PASS"; else echo "CONFIRM $D suite-with-change=FAIL"; fi
+if cargo test --workspace --offline >/tmp/$B.suite.log 2>&1; then echo "CONFIRM $D $M suite-with-change=PASS"; else echo "CONFIRM $D $M suite-with-change=FAIL"; fi
 [ -n "$DEMO" ] && mv /tmp/$B.demo.rs "$DEMO"
-[ -f MUTANT/demo_mod.diff ] && git apply MUTANT/demo_mod.diff
-if $DEMO_CMD >/tmp/$B.demo1.log 2>&1; then echo "CONFIRM $D demo-with-change=PASS(unexpected)"; else echo "CONFIRM $D demo-with-change=FAIL(expected)"; fi
-git apply -R MUTANT/patch.diff
-if $DEMO_CMD >/tmp/$B.demo2.log 2>&1; then echo "CONFIRM $D demo-without-change=PASS(expected)"; else echo "CONFIRM $D demo-without-change=FAIL(unexpected)"; fi
-git apply MUTANT/patch.diff
+[ -f $M/demo_mod.diff ] && git apply $M/demo_mod.diff
+if $DEMO_CMD >/tmp/$B.demo1.log 2>&1; then echo "CONFIRM $D $M demo-with-change=PASS(unexpected)"; else echo "CONFIRM $D $M demo-with-change=FAIL(expected)"; fi
+git apply -R $M/patch.diff
+if $DEMO_CMD >/tmp/$B.demo2.log 2>&1; then echo "CONFIRM $D $M demo-without-change=PASS(expected)"; else echo "CONFIRM $D $M demo-without-change=FAIL(unexpected)"; fi
+git checkout -- crates >/dev/null 2>&1; rm -f crates/*/tests/mutant_demo.rs
